@@ -15,7 +15,7 @@ META = dict(
          'radiative equilibrium (Tr = Tm) with equal equilibrium total energy flux; parameter sets for which the constructor raises are counted as '
          '"no solution produced" (the property quantifies over Mach numbers for which a solution is produced) except the documented default set; '
          'non-trivial = non-default gamma/Cv/Tref (O1) or M0 != default (O2); distinct = case hash',
-    assumptions=['the public attribute Fr is the lab-frame radiation flux divided by the upstream sound speed (it is scaled with C0 = c/c_s, not c): the energy balance uses c_s * Fr',
+    assumptions=['S_n transport solver: only M0 <= 2 (3 min per construction at M0 = 2, more than 10 min at M0 = 3) and only in the thorough tier; its interior momentum balance is not observable (variable Eddington factor not public)', 'the public attribute Fr is the lab-frame radiation flux divided by the upstream sound speed (it is scaled with C0 = c/c_s, not c): the energy balance uses c_s * Fr',
                  'a_r = 137.20172 erg cm^-3 eV^-4 as in radshock.py'])
 
 AR = 137.20172
